@@ -196,6 +196,12 @@ func (e *Engine) query(c *Term) string {
 		r = e.sol.CheckWith(c)
 	}
 	if r != "sat" && r != "unsat" {
+		// one more attempt: after an indefinite answer the solver process has been replaced and the
+		// assertion stack replayed (Solver.Check), so a transient cause (a dropped command, a loaded
+		// machine) does not make the path inconclusive
+		r = e.sol.CheckWith(c)
+	}
+	if r != "sat" && r != "unsat" {
 		e.end("unknown", "solver: "+r+" at "+e.cur)
 	}
 	return r
@@ -428,6 +434,9 @@ func (e *Engine) ensureFeasible() {
 		st[1] += time.Since(t0f).Seconds()
 		res.QSites["feasible@"+e.cur] = st
 		res.mu.Unlock()
+	}
+	if r != "sat" && r != "unsat" {
+		r = e.sol.Check()
 	}
 	if r == "unsat" {
 		e.end("infeasible", "assume")
@@ -854,7 +863,16 @@ func (e *Engine) finishPath(out pathEnd) {
 	if len(res.Samples) < 3 && out.kind == "ok" {
 		res.Samples = append(res.Samples, e.sampleString())
 	}
-	wantWitness := out.kind == "ok" && len(res.Witnesses) < 2 && e.live()
+	// witnesses: the first two passing paths, and up to four more that reach a set of cover points no
+	// earlier witness reached (so that the native validation sees every kind of outcome of the harness)
+	ckey := strings.Join(e.pathCovers, ",")
+	newCovers := true
+	for _, w0 := range res.Witnesses {
+		if strings.Join(w0.Covers, ",") == ckey {
+			newCovers = false
+		}
+	}
+	wantWitness := out.kind == "ok" && (len(res.Witnesses) < 2 || (newCovers && len(res.Witnesses) < 6)) && e.live()
 	res.mu.Unlock()
 	if wantWitness {
 		// a concrete instance of this passing path, replayed natively by the driver (translator validation)
@@ -863,7 +881,7 @@ func (e *Engine) finishPath(out pathEnd) {
 			w.Kind, w.Label = "witness", "passing path"
 			w.Covers = append([]string{}, e.pathCovers...)
 			res.mu.Lock()
-			if len(res.Witnesses) < 2 {
+			if len(res.Witnesses) < 6 {
 				res.Witnesses = append(res.Witnesses, w)
 			}
 			res.mu.Unlock()
